@@ -238,7 +238,7 @@ def hasPrefix (p s : Path) : Bool := p.isPrefixOf s
 temp name (a name that is neither managed by the roller nor the active path), the stream read
 back is a gap-free suffix of what was written, and the newest `count` closed segments and the
 current one are all there — no acknowledged record lost or duplicated. -/
-def checkBgHistory (c : AppCfg) (tempPrefix : Path) :
+def checkBgHistory (c : AppCfg) (tempPrefix : Path) (sizeLimit : Option Nat := none) :
     BgSpecState → List (Op × OpObs) → Option (String × String)
   | _, [] => none
   | s, (op, o) :: rest =>
@@ -248,12 +248,16 @@ def checkBgHistory (c : AppCfg) (tempPrefix : Path) :
     else match op with
     | .restart =>
       if o.res ≠ "rs:ok" then some ("a restarted appender cannot open its file", "C08/restart-failed")
-      else checkBgHistory c tempPrefix
+      else checkBgHistory c tempPrefix sizeLimit
         { written := streamOf r c.file o.final, closed := [], active := (o.final.get? c.file).getD [] } rest
     | .append rec answer =>
-      if o.res = "crash" then checkBgHistory c tempPrefix s rest
+      if o.res = "crash" then checkBgHistory c tempPrefix sizeLimit s rest
       else if o.res ≠ "ok" then some ("append failed although nothing obstructs the active file", "C08/append-failed")
       else
+        -- the real `SizeTrigger` (post-process) fires when the file has grown beyond the limit
+        let answer := match sizeLimit with
+          | some l => decide (s.active.length + rec.length > l)
+          | none => answer
         let s' : BgSpecState :=
           if c.pre then
             if answer then { written := s.written ++ rec, closed := s.active :: s.closed, active := rec }
@@ -261,7 +265,7 @@ def checkBgHistory (c : AppCfg) (tempPrefix : Path) :
           else
             if answer then { written := s.written ++ rec, closed := (s.active ++ rec) :: s.closed, active := [] }
             else { s with written := s.written ++ rec, active := s.active ++ rec }
-        checkBgHistory c tempPrefix s' rest
+        checkBgHistory c tempPrefix sizeLimit s' rest
     | .quiesce =>
       if o.final.files.any (fun e => hasPrefix tempPrefix e.1) then
         some ("acknowledged data is stranded under a temp name of background rotation",
@@ -270,7 +274,7 @@ def checkBgHistory (c : AppCfg) (tempPrefix : Path) :
         some ("the stream at quiescence is not a gap-free suffix of what was written", "C08/background-stream")
       else if !isSuffix (flat ((s.closed.take r.count).reverse) ++ s.active) (streamOf r c.file o.final) then
         some ("an acknowledged record is missing at quiescence", "C08/background-record-lost")
-      else checkBgHistory c tempPrefix s rest
-    | _ => some ("operation not available under background rotation", "C08/harness")
+      else checkBgHistory c tempPrefix sizeLimit s rest
+    | .obstacle | .unobstacle => checkBgHistory c tempPrefix sizeLimit s rest
 
 end Log4rs.Roller
